@@ -11,6 +11,12 @@
 (*       "previously sent together with that hash"), one representative per  *)
 (*       symmetric request family, histories of any length that send at most *)
 (*       MaxSent distinct <<hash, text>> pairs.                              *)
+(*   MC_ApqEvict.cfg / MC_ApqEvict_thorough.cfg                              *)
+(*       the composition with Lru.tla where it matters: LRU only, capacity   *)
+(*       1..3, MORE distinct valid texts than capacity (4 / 5), so every     *)
+(*       full cache has evicting registrations; request forms reduced to     *)
+(*       the ones that touch the cache or must not (register, hash-only,     *)
+(*       mismatch, text only); edge export like MC_Apq.cfg.                  *)
 EXTENDS Apq, TLC, Json
 
 H(ts) == [t \in ts |-> "h:" \o t]
@@ -23,6 +29,14 @@ QHash  == H(QTexts)
 TTexts == {"q1", "q2", "q3", "bad"}
 TValid == {"q1", "q2", "q3"}
 THash  == H(TTexts)
+
+\* eviction alphabets: only valid texts, more of them than any capacity
+ETexts == {"q1", "q2", "q3", "q4"}
+EHash  == H(ETexts)
+FTexts == {"q1", "q2", "q3", "q4", "q5"}
+FHash  == H(FTexts)
+LruOnly == {"lru"}
+NoneOf == {}
 
 \* "x:rand": a hash of nothing in the alphabet; "x:empty": sha256Hash absent or ""
 Wrong2 == {"x:rand", "x:empty"}
